@@ -83,7 +83,7 @@ impl Interfaces {
                     if msgs.into_iter().any(|msg| msg == &recv_msg_name) {
                         match val.deserialize_into() {
                             Ok(msg) => return Ok(Self:: #variant (msg)),
-                            Err(err) => return Err(D::Error::custom(err)).map(Self:: #variant),
+                            Err(err) => return Err(DeserializerT::Error::custom(err)).map(Self:: #variant),
                         };
                     }
                 }
